@@ -385,6 +385,74 @@ def sampler_for(modname):
     return f
 
 
+def generator_rewrite(modname, obs, pre):
+    """LCDM / Szekeres: rewrite the obligations over generators so that exp, the cube root of sinh, sqrt(cosh^2), LCDM's Hubble
+    square root and the roots of the density parameters disappear.  With E = exp(u), S = (E - 1/E)/2, C = (E + 1/E)/2,
+    R = S^(1/3), sigma = sqrt(1 - Om), c2 = (Om/(1-Om))^(1/3):
+        E -> gR^3 + gC,  1/E -> gC - gR^3,  R -> gR,  sqrt(C^2) -> gC,  h = sqrt(Ol + Om/(c2^3 R^6)) -> gS gC / gR^3,
+        Om -> 1 - gS^2,  sigma -> gS,  c2 -> gC2        under   gR > 0, gC > 0, gC^2 = 1 + gR^6, 0 < gS < 1, gC2 > 0, gC2^3 gS^2 = 1 - gS^2.
+    Every replacement is an equality between the ORIGINAL atoms that the solver proves first (lemmas below, with all atom
+    axioms); the generators then stand for R, C, sigma, c2, and the hypotheses are facts the lemmas establish for them, so
+    validity of a rewritten obligation implies validity of the original.  Returns (obs', pre', lemma records) or None."""
+    roots = [o.impl for o in obs] + [o.oracle for o in obs] + list(pre)
+    nodes = tm.reachable(roots)
+    exps = [n for n in nodes if n.op == 'exp']
+    if len(exps) != 1:
+        return None
+    E = exps[0]
+    rE = tm.recip(E)
+    S = tm.scale(tm.sub(E, rE), F(1, 2))
+    C = tm.scale(tm.add(E, rE), F(1, 2))
+    R = tm.root(S, 3)
+    sqC = tm.sqrt(tm.canon(tm.mul(C, C)))
+    ids = {n.id for n in nodes}
+
+    def contains(n, target):
+        return target.id in {m.id for m in tm.reachable([n])}
+    sqrts = [n for n in nodes if n.op == 'sqrt']
+    hs = [n for n in sqrts if n is not sqC and contains(n, R)]
+    sig = [n for n in sqrts if not contains(n, E)]
+    c2s = [n for n in nodes if n.op == 'root' and not contains(n, E)]
+    if R.id not in ids or len(sig) != 1 or len(c2s) != 1 or len(hs) > 1:
+        return None
+    sigma, c2atom, Omv = sig[0], c2s[0], tm.var('Om')
+    lemmas = []
+
+    def prove(name, goal, hyps):
+        r = solver.check(list(hyps) + [tm.bnot(goal)], timeout_s=60, want_model=False)
+        lemmas.append(dict(name=f'{modname}: lemma {name}', verdict=r['verdict'], seconds=round(r['seconds'], 3), sha=r['sha']))
+        return r['verdict'] == 'unsat'
+    hy = list(pre)
+    steps = [('sinh > 0', tm.lt(tm.ZERO, S)), ('R^3 = sinh', tm.eq(tm.ipow(R, 3), S)), ('R > 0', tm.lt(tm.ZERO, R)),
+             ('cosh^2 = 1 + R^6', tm.eq(tm.mul(C, C), tm.add(tm.ONE, tm.ipow(R, 6)))), ('cosh > 0', tm.lt(tm.ZERO, C)),
+             ('E = R^3 + cosh', tm.eq(E, tm.add(tm.ipow(R, 3), C))), ('1/E = cosh - R^3', tm.eq(rE, tm.sub(C, tm.ipow(R, 3)))),
+             ('sigma > 0', tm.lt(tm.ZERO, sigma)), ('sigma < 1', tm.lt(sigma, tm.ONE)), ('sigma^2 = 1 - Om', tm.eq(tm.mul(sigma, sigma), tm.sub(tm.ONE, Omv))),
+             ('c2 > 0', tm.lt(tm.ZERO, c2atom)), ('c2^3 sigma^2 = 1 - sigma^2', tm.eq(tm.mul(tm.ipow(c2atom, 3), tm.mul(sigma, sigma)),
+                                                                                      tm.sub(tm.ONE, tm.mul(sigma, sigma))))]
+    if sqC.id in ids:
+        steps.append(('sqrt(cosh^2) = cosh', tm.eq(sqC, C)))
+    for h in hs:
+        steps.append(('h = sigma cosh / R^3', tm.eq(h, tm.mul(tm.mul(sigma, C), tm.ipow(tm.recip(R), 3)))))
+    for name, goal in steps:
+        if not prove(name, goal, hy):
+            return None
+        hy.append(goal)
+    gR, gC, gS, gC2 = tm.var('gR'), tm.var('gC'), tm.var('gS'), tm.var('gC2')
+    mp = {E.id: tm.add(tm.ipow(gR, 3), gC), rE.id: tm.sub(gC, tm.ipow(gR, 3)), R.id: gR, sqC.id: gC, sigma.id: gS, c2atom.id: gC2,
+          Omv.id: tm.sub(tm.ONE, tm.mul(gS, gS))}
+    for h in hs:
+        mp[h.id] = tm.mul(tm.mul(gS, gC), tm.ipow(tm.recip(gR), 3))
+    gen = [tm.lt(tm.ZERO, gR), tm.lt(tm.ZERO, gC), tm.eq(tm.mul(gC, gC), tm.add(tm.ONE, tm.ipow(gR, 6))), tm.lt(tm.ZERO, gS), tm.lt(gS, tm.ONE),
+           tm.lt(tm.ZERO, gC2), tm.eq(tm.mul(tm.ipow(gC2, 3), tm.mul(gS, gS)), tm.sub(tm.ONE, tm.mul(gS, gS)))]
+    new_pre = [p_ for p_ in tm.substitute(list(pre), {}, nodes=mp) if p_ is not tm.TRUE] + gen
+    out = []
+    for o in obs:
+        a, b = tm.substitute([o.impl, o.oracle], {}, nodes=mp)
+        no = Ob(o.name, a, b, new_pre, group=o.group, meta=dict(o.meta, original=(o.impl, o.oracle, list(o.pre))))
+        out.append(no)
+    return out, new_pre, lemmas
+
+
 def run_module(args):
     modname, tier, seed = args
     import time
@@ -395,6 +463,11 @@ def run_module(args):
         import traceback
         return dict(module=modname, error=traceback.format_exc()[-600:], obs=[], stats=solver.STATS.as_dict())
     t_build = time.time() - t0
+    lemma_recs = []
+    if modname == 'Szekeres':
+        rw = generator_rewrite(modname, obs, pre)
+        if rw is not None:
+            obs, pre, lemma_recs = rw
     # vacuity twin (the preconditions are satisfiable) and sensitivity witness (a wrong reference is refuted)
     vac = []
     r_ = solver.check(pre, timeout_s=60, want_model=False)
@@ -417,16 +490,45 @@ def run_module(args):
         # obligation is listed as not claimed (never as discharged)
         hunt = [o for o in obs if any(o.name.endswith(sfx) for sfx in HUNT_ONLY[modname])]
         obs = [o for o in obs if o not in hunt]
-        solve_ladder(hunt, [dict(name='full', envs=[None], timeout=15)], sampler=sampler_for(modname), rng=random.Random(seed + 1), workers=4)
+        gslice = {'x': F(1, 2), 'y': F(-1, 3), 'z': F(3, 4), 'gS': F(1, 3), 'gC2': F(2), 't_today': F(3, 2), 'kappa': F(2), 'Amp': F(2), 'kwave': F(1, 2)}
+        gslice2 = {'x': F(-2, 3), 'y': F(5, 4), 'z': F(1, 5), 'gS': F(1, 3), 'gC2': F(2), 't_today': F(2, 3), 'kappa': F(3), 'Amp': F(-1, 2), 'kwave': F(3, 2)}
+        hr = [dict(name='full (generators)', envs=[None], timeout=30 if tier == 'quick' else 300),
+              dict(name='slice: two rational points for (x, y, z) and the constants (Omega_m = 8/9); time, the hypergeometric and the trig atoms free',
+                   envs=[gslice, gslice2], timeout=40 if tier == 'quick' else 300)]
+        solve_ladder(hunt, hr, sampler=None, rng=random.Random(seed + 1), workers=8)
         # a random-point candidate whose pinned query the solver does not settle either is handed to the float replay of the real
         # module (the replay is the arbiter of every report); labelled as such
         from symx.harness import prescreen
-        cands, _ = prescreen([o for o in hunt if o.result['verdict'] == 'unknown'], sampler_for(modname), random.Random(seed + 1), n_models=3)
+
+        def original(o):
+            if 'original' in o.meta:
+                i_, r_, p_ = o.meta['original']
+                return Ob(o.name, i_, r_, p_, group=o.group)
+            return o
         still = [o for o in hunt if o.result['verdict'] == 'unknown']
+        cands, _ = prescreen([original(o) for o in still], sampler_for(modname), random.Random(seed + 1), n_models=3)
         for i_, m_ in cands.items():
             still[i_].result = dict(verdict='sat', rung='numeric candidate (pinned query not settled); float replay decides', seconds=0.0,
                                     sha='numeric', model=dict(m_), backend='none', trivial=False)
-    solve_ladder(obs, rungs, sampler=sampler_for(modname), rng=random.Random(seed), workers=4, calib=calib)
+    rewritten = any('original' in o.meta for o in obs)
+    if rewritten:
+        # random-point candidates are evaluated on the original terms (the generators have no rational points to sample)
+        from symx.harness import prescreen, pinned_query
+        origs = [Ob(o.name, *o.meta['original'][:2], o.meta['original'][2], group=o.group) for o in obs]
+        cands, _ = prescreen(origs, sampler_for(modname), random.Random(seed), n_models=2)
+        for i_, m_ in cands.items():
+            r_ = solver.check(pinned_query(origs[i_], m_), timeout_s=30, want_model=True)
+            if r_['verdict'] == 'sat':
+                full = dict(m_)
+                full.update({k: v for k, v in r_['model'].items() if v is not None})
+                obs[i_].result = dict(verdict='sat', rung='pinned-candidate', seconds=r_['seconds'], sha=r_['sha'], model=full, backend='z3old', trivial=False)
+            else:
+                obs[i_].result = dict(verdict='sat', rung='numeric candidate (pinned query not settled); float replay decides', seconds=0.0,
+                                      sha='numeric', model=dict(m_), backend='none', trivial=False)
+        todo = [o for o in obs if o.result is None]
+        solve_ladder(todo, rungs, sampler=None, rng=random.Random(seed), workers=4, calib=calib)
+    else:
+        solve_ladder(obs, rungs, sampler=sampler_for(modname), rng=random.Random(seed), workers=4, calib=calib)
     out = []
     unsettled = [o.name for o in hunt if o.result['verdict'] == 'unknown']
     for o in obs + [o for o in hunt if o.result['verdict'] != 'unknown']:
@@ -435,14 +537,15 @@ def run_module(args):
                    group=o.group, trivial=r.get('trivial', False), kind='identity', detail=r['rung'])
         if r['verdict'] == 'sat':
             try:
-                a, b = eval_terms([o.impl, o.oracle], r['model'])
+                oi, oo = (o.meta['original'][:2] if 'original' in o.meta else (o.impl, o.oracle))
+                a, b = eval_terms([oi, oo], r['model'])
                 rec['values'] = [float(a), float(b)]
             except Exception:  # noqa
                 rec['values'] = None
             rec['model'] = {k: str(v) for k, v in r['model'].items() if v is not None}
         out.append(rec)
     return dict(module=modname, obs=out, build_s=round(t_build, 1), untranslated=untranslated, stats=solver.STATS.as_dict(), error=None, vacuity=vac,
-                hunt_only_unsettled=unsettled)
+                hunt_only_unsettled=unsettled, lemmas=lemma_recs)
 
 
 def float_replay(modname, name, model):
@@ -556,6 +659,8 @@ def main(report, tier, seed, workers, calibrate=False):
             report.harness_errors.append(f"{res['module']}: {res['error'][-300:]}")
             continue
         report.extra.setdefault('build_seconds', {})[res['module']] = res['build_s']
+        for lm in res.get('lemmas', []):
+            report.record(lm['name'], lm['verdict'], lm['seconds'], sha=lm['sha'], group=f"{res['module']}: lemmas justifying the rewrite over generators")
         if res.get('hunt_only_unsettled'):
             report.extra.setdefault('hunt_only_unsettled', []).extend(res['hunt_only_unsettled'])
         for v_ in res.get('vacuity', []):
